@@ -921,7 +921,9 @@ def depNil (m : Option (List (String × Option (List String)))) : Option (List (
   | some (e :: es) => some ((e :: es).map fun e => (e.1, some (e.2.getD [])))
   | _ => none
 
-/-- step (1): the part of `Go.normNode` that reorders nothing -/
+/-- step (1): the part of `Go.normNode` that reorders nothing `evalStep` or the resolver walks (`$vocabulary`, of which
+    only the presence is ever tested — by checkLocal — is put into its final form here: non-nil stays non-nil, keys
+    ascending, `Go.normVocab`) -/
 def preNorm (n : Node) : Node :=
   { n with
     required := Go.normReq n.required, extra := Go.normExtra n.extra, propertyOrder := none,
@@ -929,7 +931,7 @@ def preNorm (n : Node) : Node :=
     patternProperties := emptyKV n.patternProperties, dependentSchemas := emptyKV n.dependentSchemas,
     prefixItems := Go.normList n.prefixItems, allOf := Go.normList n.allOf,
     dependencySchemas := emptyKV n.dependencySchemas, dependencyStrings := depNil n.dependencyStrings,
-    vocabulary := Go.normKV n.vocabulary, dependentRequired := emptyKV n.dependentRequired,
+    vocabulary := Go.normVocab n.vocabulary, dependentRequired := emptyKV n.dependentRequired,
     examples := Go.normJL n.examples }
 
 /-- step (2): the seven maps other than "properties" in ascending key order -/
@@ -978,8 +980,8 @@ theorem scalarView_preNorm (n : Node) : scalarView (preNorm n) = scalarView n :=
   rw [normReq_getD, depView_emptyKV, depView_depNil]
 
 /-- **each nil-vs-empty normalisation is invisible to `evalStep`**: `required: []` ↦ nil, `allOf: []` / `prefixItems: []`
-    ↦ nil, every empty map ↦ nil, a nil list in DependencyStrings ↦ `[]`; and so are the fields it does not read
-    (Extra, PropertyOrder, `examples`, `$vocabulary`, `$defs`, `definitions`) -/
+    ↦ nil, every empty map (other than `$vocabulary`, which is kept) ↦ nil, a nil list in DependencyStrings ↦ `[]`;
+    and so are the fields it does not read (Extra, PropertyOrder, `examples`, `$vocabulary`, `$defs`, `definitions`) -/
 theorem preNorm_invisible (n : Node) : NodeSim Eq n (preNorm n) where
   scal := (scalarView_preNorm n).symm
   allOf := by
